@@ -107,6 +107,12 @@ def _drive(args):
     for tid in range(lo, hi):
         r = drv.rng(seed, 'c18', tid)
         layouts = PKG['mci_parameter_tables'] if tid % 3 == 0 else gen_layouts(r)
+        if tid % 3 == 1:
+            # a caller-supplied layout for a table id that the packaged configuration also knows (read earlier or later
+            # in this same process with the packaged layout)
+            own = list(layouts.values())[0]
+            layouts = dict(layouts)
+            layouts[('IP0040T1', 'IP0075T1', 'IP0006T1')[tid % 3 if False else (tid // 3) % 3]] = own
         enc = ('latin_1', 'cp500', 'cp037')[tid % 3 if tid % 2 else 0]
         blocked = bool(tid & 1)
         expanded = bool(tid & 2)
